@@ -16,6 +16,17 @@ CHECKS = {
             'Trusted: the window model in checks/c11.py (from the DT_In docstring and the statement); '
             'CPython; parameters <= 0 mean "not given".',
             'DESIGN.md section 4, C11'),
+    'C18': ('exploration',
+            'runtime monitor: deterministic step-controlled thread scheduler (sys.monitoring LINE events), '
+            'cooperative cook lock; oracle = per-thread sequential result on a fresh template',
+            'Two or three threads render one shared template object under schedules we control at '
+            'package-statement granularity: every single-preemption schedule (thorough; quick: first/last '
+            'occurrence of every site plus every 16th step), 2-preemption schedules over de-duplicated sites, '
+            'random 3-thread schedules; pre-cooked and uncooked (compile race). Each thread must get exactly '
+            'what it gets alone.',
+            'Trusted: vlib/sched.py; statement-line granularity (races inside one line or inside C / '
+            'third-party code are invisible); CPython 3.12 GIL semantics.',
+            'DESIGN.md section 4, C18'),
 }
 
 NOT_YET = {}
